@@ -60,6 +60,7 @@ type deferRec struct {
 }
 
 type fnVC struct {
+	rangeHas map[*ssa.Range]string // has-heap of the ranged map's type when the range began
 	w       *World
 	fn      *ssa.Function
 	ct      *Contract
